@@ -109,6 +109,9 @@ Section Core.
   Lemma forallb_bool_tys (ts : list term) : forallb (fun x => ty_eqb x TBool) (map (fun _ : term => TBool) ts) = true.
   Proof. induction ts; cbn; auto. Qed.
 
+  Lemma F2_length {A B} (R : A -> B -> Prop) l1 l2 : Forall2 R l1 l2 -> List.length l1 = List.length l2.
+  Proof. induction 1; cbn; congruence. Qed.
+
   Lemma veqb_bools x y : veqb (VBool x) (VBool y) = Bool.eqb x y.
   Proof.
     destruct (Bool.eqb x y) eqn:E.
@@ -163,12 +166,13 @@ Section Core.
       apply bind_ok in He. destruct He as (its & s2 & El & Ec).
       assert (Hhead : exists o, alookup h interpreted_table = Some (HOp o) /\ hi = IOp o /\ s1 = pop1 (pop1 s)).
       { unfold elab_head in Eh.
-        destruct Hh as [[[->| ->] _]|[[-> _]|[[-> _]|[[-> _]|[-> _]]]]]; cbn in Eh; inversion Eh; subst; eauto. }
+        destruct Hh as [[[->| ->] _]|[[-> _]|[[-> _]|[[-> _]|[-> _]]]]]; cbn in Eh; inversion Eh; subst;
+          (eexists; split; [reflexivity | split; reflexivity]). }
       destruct Hhead as (o & Ht & -> & ->).
-      destruct (elab_list_spec args Hspec _ _ _ Hi El) as (I2 & ts & -> & Hts).
+      destruct (elab_list_spec args Hspec (pop1 (pop1 s)) its s2 Hi El) as (I2 & ts & -> & Hts).
       apply call_op in Ec. destruct Ec as (-> & t & -> & Ha).
       split; [exact I2|]. exists t. split; [reflexivity|].
-      pose proof (tcs_bool _ _ Hts) as Htc. pose proof (Forall2_length Hts) as Hlen.
+      pose proof (tcs_bool _ _ Hts) as Htc. pose proof (F2_length _ _ _ Hts) as Hlen.
       destruct Hh as [[Hao Hn]|[[-> Hn]|[[-> Hn]|[[-> Hn]|[-> (x0 & -> & Hneg)]]]]].
       + (* and / or *)
         destruct ts as [|a [|b r]]; cbn in Hlen; try lia.
@@ -221,3 +225,60 @@ Section Core.
         * eexists. cbn [eval op_sem map]. reflexivity.
   Qed.
 End Core.
+
+(* ------------------------------------------------------------------------- the stack machine itself *)
+Lemma core_simple Sg D : forall x, core Sg D x -> simpleb x = true.
+Proof.
+  induction x as [a|l IH] using sexp_ind'; intros Hc.
+  - cbn [core] in Hc. cbn [simpleb]. destruct Hc as [->|[->|(Hp & _)]]; [reflexivity | reflexivity | now rewrite Hp].
+  - destruct l as [|[h|?] args]; try contradiction.
+    apply core_app in Hc. destruct Hc as [Hargs Hh]. inversion IH as [|? ? _ IHargs]; subst.
+    cbn [simpleb].
+    assert (Hhd : negb (is_paren h) && app_head h = true).
+    { destruct Hh as [[[->| ->] _]|[[-> _]|[[-> _]|[[-> _]|[-> _]]]]]; reflexivity. }
+    rewrite Hhd. cbn [andb]. apply forallb_forall. intros y Hy.
+    rewrite Forall_forall in *. apply IHargs; [exact Hy | now apply Hargs].
+Qed.
+
+(* FULL STATEMENT (parse_agrees): std_script_ok s -> parse_model (text of s) = Ok cmds -> every
+   asserted term t of cmds satisfies forall I, std_eval Sigma I (its sexp) = Some (eval I t).
+   Proved here, for the term reader on the Core fragment, any nesting depth, any stack below, any
+   tokens after: whenever the recursive reading of x succeeds, the stack machine get_expr returns
+   exactly that result, it is a term of sort Bool, and it denotes what core/SmtStd.v says x denotes.
+   (That the recursive reading does succeed on the fragment, and the machine's behaviour when it
+   does not, are carried by the correspondence.) *)
+Theorem parse_agrees_core_partial Sg D :
+  alookup "true" D = Some (ITerm TTrue) -> alookup "false" D = Some (ITerm TFalse) ->
+  forall x, core Sg D x ->
+  forall s i s' rest k, inv D s -> toks s = flatten x ++ rest -> elab x s = ROk i s' ->
+    get_expr (cost x + k) [] s = ROk (Some i) s' /\ toks s' = rest /\ inv D s' /\
+    exists t, i = ITerm t /\ tc t = Some TBool /\
+              forall I, wf_interp I -> std_eval Sg I x = Some (eval I t).
+Proof.
+  intros Ht Hf x Hc s i s' rest k Hi Htoks He.
+  destruct (machine_simple x (core_simple Sg D x Hc) k [] s i s' rest He Htoks) as [G T].
+  destruct (elab_agrees_core Sg D Ht Hf x Hc s i s' Hi He) as (Hi' & t & -> & Htc & _ & Hsem).
+  split; [exact G|]. split; [exact T|]. split; [exact Hi'|].
+  exists t. split; [reflexivity|]. split; [exact Htc|]. intros I HI. apply (Hsem I HI).
+Qed.
+
+(* the hypotheses are satisfiable: a nested Core term over two declared constants *)
+Definition ex_sig : sig := {| sg_sorts := []; sg_funs := [("p", TBool); ("q", TBool)] |}.
+Definition ex_D : list (string * item) :=
+  [("p", ITerm (TSym "p" TBool)); ("q", ITerm (TSym "q" TBool)); ("false", ITerm TFalse); ("true", ITerm TTrue)].
+Definition ex_sexp : sexp :=
+  SList [Atom "and"; SList [Atom "=>"; Atom "p"; SList [Atom "not"; Atom "q"]];
+         SList [Atom "="; Atom "q"; SList [Atom "ite"; Atom "p"; Atom "true"; SList [Atom "or"; Atom "p"; Atom "q"; Atom "false"]]]].
+Example ex_core : core ex_sig ex_D ex_sexp.
+Proof.
+  assert (Hp : bool_const ex_sig ex_D "p") by (repeat split; reflexivity).
+  assert (Hq : bool_const ex_sig ex_D "q") by (repeat split; reflexivity).
+  unfold ex_sexp.
+  repeat (apply core_app; split; [repeat (first [apply Forall_nil | apply Forall_cons]) | ]);
+    try (cbn [core]; tauto);
+    try (left; split; [tauto | cbn; lia]);
+    try (right; left; split; reflexivity);
+    try (right; right; left; split; reflexivity);
+    try (right; right; right; left; split; reflexivity);
+    try (right; right; right; right; split; [reflexivity | eexists; split; reflexivity]).
+Qed.
